@@ -39,6 +39,15 @@ fn via_fiber_argument(mk) { var f = Fiber.new(|v| { churn(); return v; }); retur
 fn via_yield(mk) { var f = Fiber.new(|| { var r = Fiber.yield(mk()); churn(); return r; }); var y = f.call(); churn(); return f.call(y); }
 fn via_operands(mk) { return [mk(), churn(), 0][0]; }
 fn via_call_arguments(mk) { return pick(mk(), churn()); }
+fn tmpvec(mk) { return [mk(), [1]]; }
+fn tmptuple(mk) { return (mk(), [1]); }
+fn tmpmap(mk) { return {"k": mk()}; }
+fn via_slice_of_temporary_vec(mk) { return tmpvec(mk)[0..2][0]; }
+fn via_slice_of_temporary_tuple(mk) { return tmptuple(mk)[0..2][0]; }
+fn via_items_of_temporary_map(mk) { return tmpmap(mk).items()[0..1][0][1]; }
+fn via_values_of_temporary_map(mk) { return tmpmap(mk).values()[0]; }
+fn via_collect_of_temporary_vec(mk) { return tmpvec(mk).iter().map(|e| e).filter(|e| true).collect()[0]; }
+fn via_index_of_temporary_vec(mk) { return tmpvec(mk)[0]; }
 fn garbage() { var a = [[1], [2], [3]]; var b = (1, (2, 3)); var c = {"a": [1], "b": "x" + "y"}; var d = K.new(); var e = [100..101, 100..102, 100..103, 100..104, 100..105, 100..106, 100..107, 100..108, 100..109, 100..110]; var f = || a; return nil; }
 "#;
 
@@ -117,6 +126,14 @@ fn holders() -> Vec<Holder> {
         h("yielded_and_resumed_value", "via_yield(|| (@))", "@", false, false),
         h("operand_of_unfinished_literal", "via_operands(|| (@))", "@", false, false),
         h("argument_of_unfinished_call", "via_call_arguments(|| (@))", "@", false, false),
+        // operands that are temporaries: the operation allocates its result while the container it reads from
+        // is referenced by nothing but the operation itself
+        h("slice_of_temporary_vec", "via_slice_of_temporary_vec(|| (@))", "@", false, false),
+        h("slice_of_temporary_tuple", "via_slice_of_temporary_tuple(|| (@))", "@", false, false),
+        h("items_of_temporary_map", "via_items_of_temporary_map(|| (@))", "@", false, false),
+        h("values_of_temporary_map", "via_values_of_temporary_map(|| (@))", "@", false, false),
+        h("collect_of_temporary_vec", "via_collect_of_temporary_vec(|| (@))", "@", false, false),
+        h("index_of_temporary_vec", "via_index_of_temporary_vec(|| (@))", "@", false, false),
     ]
 }
 
@@ -128,7 +145,7 @@ struct Shape {
     abandoned_fiber: bool,
 }
 
-fn shapes(max_chain: usize) -> Vec<Shape> {
+fn shapes(max_chain: usize, all_outer_holders: bool) -> Vec<Shape> {
     let refs = referents();
     let hs = holders();
     let mut out = Vec::new();
@@ -165,6 +182,14 @@ fn shapes(max_chain: usize) -> Vec<Shape> {
                     ok = false;
                 }
                 if h.needs_class && !(innermost && r.is_class) {
+                    ok = false;
+                }
+            }
+            // quick tier: chains of two have one of seven representative holders outside (one per group:
+            // sequence, map, object, closure, fiber, transient state, operation on a temporary)
+            if !all_outer_holders && chain.len() == 2 {
+                let outer = hs[chain[0]].name;
+                if !["vec_element", "map_key", "instance_field", "captured_variable", "suspended_fiber_local", "pending_return_during_finally", "slice_of_temporary_vec"].contains(&outer) {
                     ok = false;
                 }
             }
@@ -229,7 +254,7 @@ fn shapes(max_chain: usize) -> Vec<Shape> {
 /// the heap-shape programs with holder chains of length <= 1 (for C10: the build configurations differ
 /// most in when collections happen)
 pub fn shape_sources_for_c10() -> Vec<String> {
-    shapes(1).into_iter().filter(|s| !s.abandoned_fiber && !s.source.contains(SNIPPET_SEPARATOR)).map(|s| s.source).collect()
+    shapes(1, true).into_iter().filter(|s| !s.abandoned_fiber && !s.source.contains(SNIPPET_SEPARATOR)).map(|s| s.source).collect()
 }
 
 fn run_with(runner: &mut Runner, src: &str, gc: GcSpec) -> (Obs, Option<SnippetResult>, Vec<String>, usize) {
@@ -295,7 +320,7 @@ pub fn run(ctx: &Ctx) -> Report {
     let mut report = Report::new();
     let active = active_findings(ctx, &mut report);
     let thorough = ctx.thorough();
-    let sh = shapes(if thorough { 2 } else { 2 });
+    let sh = shapes(2, thorough);
     let n_shapes = sh.len();
     let active_ref = &active;
     // allocations performed by the shared prelude alone
@@ -442,8 +467,8 @@ pub fn run(ctx: &Ctx) -> Report {
     report.cov("traces_validated_against_impl", json!(acc.runs));
     report.cov("distinct_nontrivial", json!(n_shapes + n_corpus));
     report.cov("exhaustive", json!(true));
-    report.cov("rule", json!("programs: every heap-shape program root -> holder chain (length <= 2 over 23 holder kinds: vec/tuple element, map key, map value, field, captured variable, bound-method receiver, iterators, map adapter, suspended fiber local, method and static-method captures, error context, superclass link, open variable of an abandoned fiber, and six kinds of transient interpreter state - a return waiting for a finally block, an exception in flight through a finally block, a fiber call argument, a yielded and resumed value, an operand of an unfinished literal, an argument of an unfinished call) -> referent (20 kinds), the root being a global, a local, a closed variable, or - with one interpreter and two runs - a variable of a frame that an uncaught error discarded in the first run (the frame that threw, a frame or a fiber that was waiting for the fiber that threw), reached in the second run through an escaped closure; after construction every other reference is dropped, garbage of six kinds is allocated, the referent is reached through the chain and touched in every way its kind allows; plus the C05/C06/C07/C08/C18 generator corpora and the C14 (modules) and C17 (error paths through every call link) corpora with their module tables. schedules: never (comparison), always (collect at every allocation, swept objects quarantined and every later touch reported), only{i} for every allocation index of the small programs (all pairs in the thorough tier). oracle: no use-after-free event, no object swept while borrowed, output identical to the never-collect run."));
-    report.cov("bounds", json!({"chain_length": 2, "only_i_for_program_allocations_up_to": 80, "pairs_for_program_allocations_up_to": if thorough { 40 } else { 0 }}));
+    report.cov("rule", json!("programs: every heap-shape program root -> holder chain (length <= 2 over 29 holder kinds: vec/tuple element, map key, map value, field, captured variable, bound-method receiver, iterators, map adapter, suspended fiber local, method and static-method captures, error context, superclass link, open variable of an abandoned fiber, and six kinds of transient interpreter state - a return waiting for a finally block, an exception in flight through a finally block, a fiber call argument, a yielded and resumed value, an operand of an unfinished literal, an argument of an unfinished call - and six operations on temporaries: slice / index / collect of a temporary vec, slice of a temporary tuple, items / values of a temporary map) -> referent (20 kinds), the root being a global, a local, a closed variable, or - with one interpreter and two runs - a variable of a frame that an uncaught error discarded in the first run (the frame that threw, a frame or a fiber that was waiting for the fiber that threw), reached in the second run through an escaped closure; after construction every other reference is dropped, garbage of six kinds is allocated, the referent is reached through the chain and touched in every way its kind allows; plus the C05/C06/C07/C08/C18 generator corpora and the C14 (modules) and C17 (error paths through every call link) corpora with their module tables. schedules: never (comparison), always (collect at every allocation, swept objects quarantined and every later touch reported), only{i} for every allocation index of the small programs (all pairs in the thorough tier). oracle: no use-after-free event, no object swept while borrowed, output identical to the never-collect run."));
+    report.cov("bounds", json!({"chain_length": 2, "outer_holders_of_chains_of_two": if thorough { "all 29" } else { "7 representatives" }, "only_i_for_program_allocations_up_to": 80, "pairs_for_program_allocations_up_to": if thorough { 40 } else { 0 }}));
     report.cov("heap_shape_programs", json!(n_shapes));
     report.cov("corpus_programs", json!(n_corpus));
     report.cov("schedules_run", json!(acc.schedules));
